@@ -713,7 +713,8 @@ func checkC09(p *Prog, rp *Report) {
 		if undecided == "" {
 			mid := mkProbeType("ParagraphInTheMiddle", []probeField{{"Package", str, "", false}, {"Section", str, "", false}, {"Paragraph", paraT, "", true}, {"Priority", str, "", false}})
 			r2 := newC09Run(p)
-			doc2 := "X-First: 1\nPackage: old\nX-Mid: m\nSection: utils\nPriority: optional\nX-Last: z\n"
+			// unknown fields include one without a value and names with every kind of character a field name may have
+			doc2 := "X-First: 1\nPackage: old\nX-Empty:\nX-Mid: m\nSection: utils\nDescription-pt_BR.UTF-8: texto\nPriority: optional\nX_a+b/c~d!$%&'()*;<=>?@[]^`{|}: odd\nX-Last: z\n"
 			obj, isErr, why := r2.unmarshal(mid, doc2)
 			if !note(why) {
 				if isErr {
@@ -728,10 +729,11 @@ func checkC09(p *Prog, rp *Report) {
 						if isErr || perr != "" {
 							problems = append(problems, fmt.Sprintf("(Paragraph embedded after other members) marshal fails or gives %q", tx))
 						} else {
-							if got := strings.Join(para.order, ","); got != "X-First,Package,X-Mid,Section,Priority,X-Last" {
-								problems = append(problems, fmt.Sprintf("(Paragraph embedded after other members) field order %s, want the original order X-First,Package,X-Mid,Section,Priority,X-Last", got))
+							const wantOrder2 = "X-First,Package,X-Empty,X-Mid,Section,Description-pt_BR.UTF-8,Priority,X_a+b/c~d!$%&'()*;<=>?@[]^`{|},X-Last"
+							if got := strings.Join(para.order, ","); got != wantOrder2 {
+								problems = append(problems, fmt.Sprintf("(Paragraph embedded after other members) field order %s, want the original order %s", got, wantOrder2))
 							}
-							for k, w := range map[string]string{"Package": "new", "Priority": "extra", "Section": "utils", "X-First": "1", "X-Mid": "m", "X-Last": "z"} {
+							for k, w := range map[string]string{"Package": "new", "Priority": "extra", "Section": "utils", "X-First": "1", "X-Mid": "m", "X-Last": "z", "X-Empty": "", "Description-pt_BR.UTF-8": "texto", "X_a+b/c~d!$%&'()*;<=>?@[]^`{|}": "odd"} {
 								if g := strings.TrimSuffix(para.values[k], "\n"); g != w {
 									problems = append(problems, fmt.Sprintf("(Paragraph embedded after other members) field %s is written as %q, want %q: known fields must carry the struct's current values", k, g, w))
 								}
@@ -827,6 +829,7 @@ func c09Merge(p *Prog, rp *Report) *Rule {
 		}{
 			{[]string{"A", "X-Unknown", "B"}, map[string]string{"A": "old-a", "X-Unknown": "keep", "B": "old-b"}, []string{"B", "C", "A"}, map[string]string{"B": "new-b", "C": "new-c", "A": "new-a"}},
 			{nil, map[string]string{}, []string{"P", "Q"}, map[string]string{"P": "1", "Q": "2"}},
+			{[]string{"A", "Empty", "Description-pt_BR.UTF-8", "B"}, map[string]string{"A": "a", "Empty": "", "Description-pt_BR.UTF-8": "t", "B": ""}, []string{"New-Empty", "X_y", "A"}, map[string]string{"New-Empty": "", "X_y": "u", "A": ""}},
 			{[]string{"K"}, map[string]string{"K": "v"}, nil, map[string]string{}},
 		}
 		for _, c := range cases {
